@@ -66,7 +66,7 @@ def _own_nodes(fn):
         stack.extend(ast.iter_child_nodes(n))
 
 
-def is_pure(node, gen_methods=()):
+def is_pure(node, gen_methods=(), pure_names=()):
     """Side-effect free and cheap to re-evaluate: no yield / await / walrus, calls only to constructors and known pure
     helpers."""
     for n in ast.walk(node):
@@ -76,7 +76,7 @@ def is_pure(node, gen_methods=()):
         if isinstance(n, ast.Call):
             f = n.func
             if isinstance(f, ast.Name):
-                if f.id in PURE_BUILTINS or f.id[:1].isupper():
+                if f.id in PURE_BUILTINS or f.id[:1].isupper() or f.id in pure_names:
                     continue
                 return False
             if isinstance(f, ast.Attribute):
@@ -801,129 +801,531 @@ def desugar_ifexp(fn):
     return clone
 
 
+def _is_generator(fn):
+    return any(isinstance(x, (ast.Yield, ast.YieldFrom)) for x in _own_nodes(fn))
+
+
+def _callable_entry(n, is_method):
+    """(params, defaults, body, is_gen) of a def that can be substituted at statement calls, or None."""
+    a = n.args
+    if a.vararg or a.kwarg or a.posonlyargs or n.decorator_list or isinstance(n, ast.AsyncFunctionDef):
+        return None
+    params = [p.arg for p in a.args]
+    if is_method:
+        if not params or params[0] != 'self':
+            return None
+        params = params[1:]
+    inner = list(ast.walk(n))[1:]
+    if any(isinstance(x, (ast.FunctionDef, ast.AsyncFunctionDef, ast.ClassDef, ast.Global, ast.Nonlocal)) for x in inner):
+        return None
+    # not recursive
+    if any(isinstance(x, ast.Name) and x.id == n.name for x in inner) or \
+            any(isinstance(x, ast.Attribute) and x.attr == n.name for x in inner):
+        return None
+    defaults = {}
+    pos = a.args[len(a.args) - len(a.defaults):] if a.defaults else []
+    for p_, d in zip(pos, a.defaults):
+        defaults[p_.arg] = d
+    for p_, d in zip(a.kwonlyargs, a.kw_defaults):
+        params.append(p_.arg)
+        if d is not None:
+            defaults[p_.arg] = d
+    if not all(isinstance(d, ast.Constant) for d in defaults.values()):
+        return None
+    body = [st for i, st in enumerate(n.body)
+            if not (i == 0 and isinstance(st, ast.Expr) and isinstance(st.value, ast.Constant) and isinstance(st.value.value, str))]
+    if not body:
+        return None
+    return params, defaults, body, _is_generator(n)
+
+
 def module_functions(tree, is_known):
-    """New plain module-level functions (unknown to the role table) that can be substituted at their call sites:
-    name -> (params, body).  Only positional parameters without defaults, no generator, no nested scopes, not recursive."""
+    """New plain module-level functions (unknown to the role table) that can be substituted at their call sites."""
     out = {}
     for n in tree.body:
-        if not isinstance(n, ast.FunctionDef) or is_known(n.name) or n.decorator_list:
-            continue
-        a = n.args
-        if a.vararg or a.kwarg or a.kwonlyargs or a.defaults or a.posonlyargs:
-            continue
-        inner = list(ast.walk(n))[1:]
-        if any(isinstance(x, (ast.Yield, ast.YieldFrom, ast.FunctionDef, ast.AsyncFunctionDef, ast.Lambda, ast.ClassDef,
-                              ast.Global, ast.Nonlocal)) for x in inner):
-            continue
-        if any(isinstance(x, ast.Name) and x.id == n.name for x in inner):
-            continue
-        body = [st for i, st in enumerate(n.body)
-                if not (i == 0 and isinstance(st, ast.Expr) and isinstance(st.value, ast.Constant) and isinstance(st.value.value, str))]
-        if not body:
-            continue
-        out[n.name] = ([p.arg for p in a.args], body)
+        if isinstance(n, ast.FunctionDef) and not is_known(n.name):
+            e = _callable_entry(n, False)
+            if e is not None:
+                out[n.name] = e
     return out
 
 
-def inline_module_functions(fn, funcs):
-    """A call of a new module-level helper is replaced by the helper's body when the call is a whole statement:
-    `return f(..)` (the helper's returns become the caller's; falling off the end returns None), `f(..)` (helper without a
-    value-returning `return` except as its last statement) and `x = f(..)` (helper whose only `return` is its last
-    statement).  Parameters are bound by assignment in front of the body unless the argument is the parameter's own name.
-    Nothing is done when the helper's locals collide with the caller's."""
+def class_functions(class_node, is_known):
+    """New methods (unknown to the role table) that can be substituted at their `self.<name>(..)` statement calls."""
+    out = {}
+    if class_node is None:
+        return out
+    for n in class_node.body:
+        if isinstance(n, ast.FunctionDef) and not is_known(n.name) and not (n.name.startswith('__') and n.name.endswith('__')):
+            e = _callable_entry(n, True)
+            if e is not None:
+                out[n.name] = e
+    return out
+
+
+def only_statement_called(funcs, scope_nodes, all_nodes, method):
+    """The subset of `funcs` every mention of which (in `all_nodes`, the whole program) is a statement call inside
+    `scope_nodes` (the class body / module body the helpers live in): a helper that is also stored, passed on, drained with
+    list(..) or called from elsewhere is left alone everywhere, so that all its uses are seen the same way."""
+    def mention(x):
+        if method and isinstance(x, ast.Attribute):
+            return x.attr
+        if not method and isinstance(x, ast.Name):
+            return x.id
+        if method and isinstance(x, ast.Name):
+            return None
+        return None
+    total = {}
+    for root in all_nodes:
+        for x in ast.walk(root):
+            nm = mention(x)
+            if nm in funcs:
+                total[nm] = total.get(nm, 0) + 1
+    good = {}
+    for root in scope_nodes:
+        for st in ast.walk(root):
+            v = None
+            if isinstance(st, ast.Return):
+                v = st.value
+            elif isinstance(st, ast.Expr):
+                v = st.value
+            elif isinstance(st, ast.Assign) and len(st.targets) == 1 and (isinstance(st.targets[0], ast.Name) or (
+                    isinstance(st.targets[0], ast.Tuple) and all(isinstance(e, ast.Name) for e in st.targets[0].elts))):
+                v = st.value
+            elif isinstance(st, ast.AugAssign) and isinstance(st.target, ast.Name):
+                v = st.value
+            gen = isinstance(v, ast.YieldFrom)
+            c = v.value if gen else v
+            if not isinstance(c, ast.Call):
+                continue
+            f = c.func
+            if method and isinstance(f, ast.Attribute) and isinstance(f.value, ast.Name) and f.value.id == 'self':
+                nm = f.attr
+            elif not method and isinstance(f, ast.Name):
+                nm = f.id
+            else:
+                continue
+            if nm in funcs and funcs[nm][3] == gen:
+                good[nm] = good.get(nm, 0) + 1
+    return {nm: e for nm, e in funcs.items() if total.get(nm, 0) == good.get(nm, 0)}
+
+
+def _names(node, ctx):
+    return {x.id for x in ast.walk(node) if isinstance(x, ast.Name) and isinstance(x.ctx, ctx)}
+
+
+def _exposed(stmts):
+    """(names that may be read before they are written when `stmts` runs, names written on every way through it,
+    whether every way through ends in return / raise)."""
+    reads, writes = set(), set()
+
+    def use(node):
+        nonlocal reads
+        if node is not None:
+            reads |= _names(node, ast.Load) - writes
+    for st in stmts:
+        if isinstance(st, (ast.Return, ast.Raise)):
+            use(st)
+            return reads, writes, True
+        if isinstance(st, ast.If):
+            use(st.test)
+            r1, w1, t1 = _exposed(st.body)
+            r2, w2, t2 = _exposed(st.orelse)
+            reads |= (r1 | r2) - writes
+            if t1 and t2:
+                return reads, writes, True
+            writes |= w2 if t1 else w1 if t2 else (w1 & w2)
+            continue
+        if isinstance(st, ast.Match):
+            use(st.subject)
+            ws, all_t = None, True
+            irrefutable = False
+            for c in st.cases:
+                bound = {x.name for x in ast.walk(c.pattern) if isinstance(x, (ast.MatchAs, ast.MatchStar)) and x.name} | \
+                        {x.rest for x in ast.walk(c.pattern) if isinstance(x, ast.MatchMapping) and x.rest}
+                for x in ast.walk(c.pattern):
+                    if isinstance(x, (ast.MatchValue, ast.MatchClass)):
+                        use(x.value if isinstance(x, ast.MatchValue) else x.cls)
+                r, w, t = _exposed(([ast.Expr(value=c.guard)] if c.guard is not None else []) + c.body)
+                reads |= r - writes - bound
+                if not t:
+                    ws = (w | bound) if ws is None else ws & (w | bound)
+                    all_t = False
+                if isinstance(c.pattern, ast.MatchAs) and c.pattern.pattern is None and c.guard is None:
+                    irrefutable = True
+            if irrefutable:
+                if all_t:
+                    return reads, writes, True
+                writes |= ws or set()
+            continue
+        if isinstance(st, (ast.For, ast.AsyncFor)):
+            use(st.iter)
+            tgt = _names(st.target, ast.Store)
+            r, _, _ = _exposed(st.body)
+            reads |= r - writes - tgt
+            r, _, _ = _exposed(st.orelse)
+            reads |= r - writes
+            continue
+        if isinstance(st, ast.While):
+            use(st.test)
+            r, _, _ = _exposed(st.body)
+            reads |= r - writes
+            r, _, _ = _exposed(st.orelse)
+            reads |= r - writes
+            continue
+        if isinstance(st, (ast.With, ast.AsyncWith)):
+            for item in st.items:
+                use(item.context_expr)
+                if item.optional_vars is not None:
+                    use(item.optional_vars)
+                    writes |= _names(item.optional_vars, ast.Store)
+            r, w, t = _exposed(st.body)
+            reads |= r - writes
+            if t:
+                return reads, writes, True
+            writes |= w
+            continue
+        if isinstance(st, ast.Try):
+            for part in [st.body, st.orelse, st.finalbody] + [h.body for h in st.handlers]:
+                r, _, _ = _exposed(part)
+                reads |= r - writes
+            continue
+        if isinstance(st, ast.AugAssign):
+            use(st.value)
+            use(st.target)
+            reads |= _names(st.target, ast.Store) - writes
+            continue
+        if isinstance(st, (ast.Assign, ast.AnnAssign)):
+            use(st.value)
+            for t_ in (st.targets if isinstance(st, ast.Assign) else [st.target]):
+                use(t_)
+                if isinstance(t_, (ast.Name, ast.Tuple, ast.List)):
+                    writes |= _names(t_, ast.Store)
+            continue
+        use(st)
+    return reads, writes, False
+
+
+def _live_after(st, root):
+    """Names of `root` that may still be read, without being written first, once statement `st` has completed."""
+    live = set()
+    covered = set()      # names certainly rewritten before any later read found so far does not apply across levels: keep simple
+    node = st
+    while node is not None and node is not root:
+        parent = getattr(node, '_parent', None)
+        if parent is None:
+            break
+        for field in ('body', 'orelse', 'finalbody'):
+            lst = getattr(parent, field, None)
+            if isinstance(lst, list) and node in lst:
+                r, _, _ = _exposed(lst[lst.index(node) + 1:])
+                live |= r
+        if isinstance(parent, ast.match_case) and node in parent.body:
+            r, _, _ = _exposed(parent.body[parent.body.index(node) + 1:])
+            live |= r
+        if isinstance(parent, ast.ExceptHandler) and node in parent.body:
+            r, _, _ = _exposed(parent.body[parent.body.index(node) + 1:])
+            live |= r
+        if isinstance(parent, (ast.For, ast.AsyncFor, ast.While)) and node in parent.body:
+            r, _, _ = _exposed(parent.body)
+            live |= r
+            if isinstance(parent, ast.While):
+                live |= _names(parent.test, ast.Load)
+        if isinstance(parent, ast.Try):
+            for part in [parent.finalbody, parent.orelse] + [h.body for h in parent.handlers]:
+                r, _, _ = _exposed(part)
+                live |= r
+        node = parent
+    return live
+
+
+def _tail_returns(stmts, on_return, need_value):
+    """`stmts` with every `return` that is in tail position replaced by on_return(value); guard clauses
+    (`if c: ...; return` followed by more statements) are turned into if/else first.  None when a `return` remains
+    somewhere else (inside a loop, a try, ...)."""
+    stmts = list(stmts)
+    for i, st in enumerate(stmts[:-1]):
+        if isinstance(st, ast.If) and not st.orelse and st.body and isinstance(st.body[-1], (ast.Return, ast.Raise)) and \
+                any(isinstance(x, ast.Return) for x in ast.walk(st)):
+            new_if = ast.If(test=st.test, body=st.body, orelse=stmts[i + 1:])
+            ast.copy_location(new_if, st)
+            stmts = stmts[:i] + [new_if]
+            break
+    for st in stmts[:-1]:
+        if any(isinstance(x, ast.Return) for x in ast.walk(st)):
+            return None
+    if not stmts:
+        return on_return(None) if need_value else []
+    last = stmts[-1]
+    head = stmts[:-1]
+    if isinstance(last, ast.Return):
+        return head + on_return(last.value)
+    if isinstance(last, ast.Raise):
+        return stmts
+    if isinstance(last, ast.If):
+        b = _tail_returns(last.body, on_return, need_value)
+        o = _tail_returns(last.orelse, on_return, need_value)
+        if b is None or o is None:
+            return None
+        new_if = ast.If(test=last.test, body=b or [ast.Pass()], orelse=o)
+        ast.copy_location(new_if, last)
+        return head + [new_if]
+    if isinstance(last, (ast.With,)):
+        b = _tail_returns(last.body, on_return, need_value)
+        if b is None:
+            return None
+        new = ast.With(items=last.items, body=b or [ast.Pass()], type_comment=None)
+        ast.copy_location(new, last)
+        return head + [new]
+    if isinstance(last, ast.Match):
+        cases = []
+        for c in last.cases:
+            b = _tail_returns(c.body, on_return, need_value)
+            if b is None:
+                return None
+            cases.append(ast.match_case(pattern=c.pattern, guard=c.guard, body=b or [ast.Pass()]))
+        irrefutable = any(isinstance(c.pattern, ast.MatchAs) and c.pattern.pattern is None and c.guard is None for c in last.cases)
+        if need_value and not irrefutable:
+            cases.append(ast.match_case(pattern=ast.MatchAs(pattern=None, name=None), guard=None, body=on_return(None)))
+        new = ast.Match(subject=last.subject, cases=cases)
+        ast.copy_location(new, last)
+        return head + [new]
+    if any(isinstance(x, ast.Return) for x in ast.walk(last)):
+        return None
+    return stmts + (on_return(None) if need_value else [])
+
+
+def inline_statement_calls(fn, funcs, method, module=None):
+    """A call of a new helper (module-level function called by name, or method called as self.<name>) that forms a whole
+    statement is replaced by the helper's body:
+
+        return CALL            the helper's returns become the caller's (falling off the end returns None)
+        CALL                   the helper's tail returns are dropped (their values, when not pure, are still evaluated)
+        x = CALL, x op= CALL   the helper's tail returns become assignments to x
+
+    where CALL is `f(..)` for a plain helper and `yield from f(..)` for a generator helper.  A parameter is replaced by its
+    argument when the argument is a plain name / attribute chain / constant and the helper never rebinds the parameter;
+    otherwise it is bound by an assignment in front of the body.  Helper locals that would overwrite a live name of the
+    caller are renamed apart (liveness by a may-read-before-write walk)."""
     if not funcs or not isinstance(fn, (ast.FunctionDef, ast.AsyncFunctionDef)) or fn.name in funcs:
         return fn
 
-    def call_of(st):
-        v = None
-        if isinstance(st, ast.Return):
-            v = st.value
-        elif isinstance(st, ast.Expr):
-            v = st.value
-        elif isinstance(st, ast.Assign) and len(st.targets) == 1 and isinstance(st.targets[0], ast.Name):
-            v = st.value
-        if isinstance(v, ast.Call) and isinstance(v.func, ast.Name) and v.func.id in funcs and not v.keywords \
-                and not any(isinstance(a, ast.Starred) for a in v.args) and len(v.args) == len(funcs[v.func.id][0]):
-            return v
-        return None
+    def callee(v):
+        if isinstance(v, ast.YieldFrom):
+            c, gen = v.value, True
+        else:
+            c, gen = v, False
+        if not isinstance(c, ast.Call):
+            return None
+        if method:
+            if not (isinstance(c.func, ast.Attribute) and isinstance(c.func.value, ast.Name) and c.func.value.id == 'self'):
+                return None
+            name = c.func.attr
+        else:
+            if not isinstance(c.func, ast.Name):
+                return None
+            name = c.func.id
+        if name not in funcs or funcs[name][3] != gen:
+            return None
+        params, defaults, body, _ = funcs[name]
+        if any(isinstance(a_, ast.Starred) for a_ in c.args) or any(k.arg is None for k in c.keywords) or len(c.args) > len(params):
+            return None
+        bound = dict(zip(params, c.args))
+        for k in c.keywords:
+            if k.arg in bound or k.arg not in params:
+                return None
+            bound[k.arg] = k.value
+        for p_ in params:
+            if p_ not in bound:
+                if p_ not in defaults:
+                    return None
+                bound[p_] = defaults[p_]
+        return name, [(p_, bound[p_]) for p_ in params]
 
-    def returns_of(body):
-        return [x for st in body for x in ast.walk(st) if isinstance(x, ast.Return)]
-
-    def usable(st, call):
-        params, body = funcs[call.func.id]
-        rets = returns_of(body)
-        if isinstance(st, ast.Return):
-            return True
-        last_only = all(r is body[-1] for r in rets)
+    def site(st):
+        if isinstance(st, ast.Return) and st.value is not None:
+            return 'return', callee(st.value)
         if isinstance(st, ast.Expr):
-            return last_only or all(r.value is None for r in rets) and False
-        return len(rets) == 1 and rets[0] is body[-1] and rets[0].value is not None
+            return 'expr', callee(st.value)
+        if isinstance(st, ast.Assign) and len(st.targets) == 1 and (isinstance(st.targets[0], ast.Name) or (
+                isinstance(st.targets[0], ast.Tuple) and all(isinstance(e, ast.Name) for e in st.targets[0].elts))):
+            return 'assign', callee(st.value)
+        if isinstance(st, ast.AugAssign) and isinstance(st.target, ast.Name):
+            return 'aug', callee(st.value)
+        return None, None
 
-    def find(root):
+    def find(root, skip):
         for n in [root] + list(_own_nodes(root)):
             for field in ('body', 'orelse', 'finalbody'):
                 lst = getattr(n, field, None)
                 if not isinstance(lst, list):
                     continue
                 for i, st in enumerate(lst):
-                    c = call_of(st)
-                    if c is not None and usable(st, c):
-                        return lst, i, st, c
+                    kind, c = site(st)
+                    if c is not None and id(st) not in skip:
+                        return lst, i, st, kind, c
         return None
-    if find(fn) is None:
+    if find(fn, ()) is None:
         return fn
     work = _relink(_strip(fn), getattr(fn, '_parent', None))
-    for _ in range(8):
-        hit = find(work)
+    ctor_names = ctor_valued_names(fn, module)
+    skip = set()
+    changed = False
+    for _ in range(24):
+        hit = find(work, skip)
         if hit is None:
             break
-        lst, i, st, call = hit
-        params, body = funcs[call.func.id]
-        callee_locals = {x.id for b in body for x in ast.walk(b) if isinstance(x, ast.Name) and isinstance(x.ctx, ast.Store)}
-        bound = {p for p, a in zip(params, call.args) if not (isinstance(a, ast.Name) and a.id == p)}
-        # names of the caller that are still read after the call (or anywhere in a loop around it) must not be overwritten
-        # by the helper's locals; nor may a parameter binding overwrite a name a later argument reads
-        end = getattr(st, 'end_lineno', getattr(st, 'lineno', 0))
-        live = {x.id for x in _own_nodes(work) if isinstance(x, ast.Name) and isinstance(x.ctx, ast.Load) and getattr(x, 'lineno', 0) > end}
-        loop = _enclosing(st, (ast.For, ast.While), work)
-        if loop is not None:
-            live |= {x.id for x in ast.walk(loop) if isinstance(x, ast.Name) and isinstance(x.ctx, ast.Load)}
-        arg_reads = {x.id for a in call.args for x in ast.walk(a) if isinstance(x, ast.Name)}
-        ren = {nm: f'{nm}__{call.func.id}' for nm in (callee_locals | bound) if nm in live or (nm in bound and nm in arg_reads)}
+        lst, i, st, kind, (name, binding) = hit
+        params, defaults, body, _ = funcs[name]
+        stored = {x.id for b in body for x in ast.walk(b) if isinstance(x, ast.Name) and isinstance(x.ctx, ast.Store)} | \
+            {x.name for b in body for x in ast.walk(b) if isinstance(x, (ast.MatchAs, ast.MatchStar)) and x.name}
+        attr_stores = {src_(x) for b in body for x in ast.walk(b) if isinstance(x, ast.Attribute) and isinstance(x.ctx, ast.Store)}
+
+        def stable(a_):
+            if isinstance(a_, ast.Constant):
+                return True
+            if isinstance(a_, ast.Name):
+                return True
+            if isinstance(a_, ast.Attribute):
+                return stable(a_.value) and src_(a_) not in attr_stores
+            return False
+        self_calls = any(isinstance(x, ast.Call) and isinstance(x.func, ast.Attribute) and isinstance(x.func.value, ast.Name)
+                         and x.func.value.id == 'self' for b in body for x in ast.walk(b))
+
+        def late(a_):
+            # side-effect free, and nothing it reads can change while the helper runs: it may be evaluated where it is used
+            if not is_pure(a_, pure_names=ctor_names):
+                return False
+            for x in ast.walk(a_):
+                if isinstance(x, ast.Attribute) and isinstance(x.value, ast.Name) and x.value.id == 'self' and \
+                        (self_calls or src_(x) in attr_stores):
+                    return False
+                if isinstance(x, ast.Subscript):
+                    return False
+            return True
+        subst = {p_: a_ for p_, a_ in binding if p_ not in stored and (stable(a_) or late(a_))}
+        bind = [(p_, a_) for p_, a_ in binding if p_ not in subst and not (isinstance(a_, ast.Name) and a_.id == p_)]
+        live = _live_after(st, work)
+        if kind == 'assign':
+            # the statement itself overwrites its targets: they are not live across it
+            live -= _names(st.targets[0], ast.Store)
+        arg_reads = {x.id for _, a_ in binding for x in ast.walk(a_) if isinstance(x, ast.Name)}
+        same = {p_ for p_, a_ in binding if isinstance(a_, ast.Name) and a_.id == p_}
+        clash = {nm for nm in (stored | {p_ for p_, _ in bind}) - same if nm in live or nm in arg_reads}
+        if kind == 'aug' and st.target.id in stored | {p_ for p_, _ in bind}:
+            clash.add(st.target.id)
+        ren = {nm: f'{nm}__{name}' for nm in clash}
 
         class _R(ast.NodeTransformer):
             def visit_Name(self, n):
                 if n.id in ren:
                     return ast.copy_location(ast.Name(id=ren[n.id], ctx=n.ctx), n)
+                if n.id in subst and isinstance(n.ctx, ast.Load):
+                    return ast.copy_location(_strip(subst[n.id]), n)
+                return n
+
+            def visit_MatchAs(self, n):
+                self.generic_visit(n)
+                if n.name in ren:
+                    n.name = ren[n.name]
                 return n
         new = []
-        for p, a in zip(params, call.args):
-            tgt = ren.get(p, p)
-            if isinstance(a, ast.Name) and a.id == tgt:
-                continue
-            new.append(ast.Assign(targets=[ast.Name(id=tgt, ctx=ast.Store())], value=_strip(a), type_comment=None))
+        for p_, a_ in bind:
+            new.append(ast.Assign(targets=[ast.Name(id=ren.get(p_, p_), ctx=ast.Store())], value=_strip(a_), type_comment=None))
         copied = [_R().visit(_strip(b)) for b in body]
-        if isinstance(st, ast.Return):
+        if kind == 'return':
             if not isinstance(copied[-1], (ast.Return, ast.Raise)):
                 copied.append(ast.Return(value=ast.Constant(value=None)))
-        elif isinstance(st, ast.Expr):
-            if isinstance(copied[-1], ast.Return):
-                last = copied.pop()
-                if last.value is not None and not is_pure(last.value):
-                    copied.append(ast.Expr(value=last.value))
         else:
-            last = copied.pop()
-            copied.append(ast.Assign(targets=[_strip(st.targets[0])], value=last.value, type_comment=None))
+            if kind == 'expr':
+                def on_return(v):
+                    return [] if v is None or is_pure(v) else [ast.Expr(value=v)]
+            elif kind == 'assign':
+                def on_return(v, _t=st.targets[0]):
+                    if v is not None and ast.dump(_strip_ctx(v)) == ast.dump(_strip_ctx(_t)):
+                        return []       # the helper's own names for the values are the caller's
+                    return [ast.Assign(targets=[_strip(_t)], value=v if v is not None else ast.Constant(value=None), type_comment=None)]
+            else:
+                def on_return(v, _t=st.target, _op=st.op):
+                    return [ast.AugAssign(target=_strip(_t), op=_op, value=v if v is not None else ast.Constant(value=None))]
+            copied = _tail_returns(copied, on_return, kind != 'expr')
+            if copied is None:
+                skip.add(id(st))
+                continue
         new += copied
+        if not new:
+            new = [ast.Pass()]
         for x in new:
             for y in ast.walk(x):
-                if not hasattr(y, 'lineno') or True:
-                    y.lineno = getattr(st, 'lineno', 1)
-                    y.col_offset = getattr(st, 'col_offset', 0)
-                    y.end_lineno = getattr(st, 'end_lineno', y.lineno)
-                    y.end_col_offset = getattr(st, 'end_col_offset', 0)
+                y.lineno = getattr(st, 'lineno', 1)
+                y.col_offset = getattr(st, 'col_offset', 0)
+                y.end_lineno = getattr(st, 'end_lineno', y.lineno)
+                y.end_col_offset = getattr(st, 'end_col_offset', 0)
         lst[i:i + 1] = new
+        changed = True
         _relink(work, getattr(fn, '_parent', None))
+    if not changed:
+        return fn
     work._normalised = True
     return work
+
+
+def src_(node):
+    return ast.unparse(node)
+
+
+def _strip_ctx(node):
+    new = _strip(node)
+    for x in ast.walk(new):
+        if hasattr(x, 'ctx'):
+            x.ctx = ast.Load()
+        for a_ in ('lineno', 'col_offset', 'end_lineno', 'end_col_offset'):
+            if hasattr(x, a_):
+                delattr(x, a_)
+    return new
+
+
+def ctor_valued_names(fn, module):
+    """Locals of fn bound only to a lookup in a module-level dict literal whose values are all classes (capitalised names /
+    attributes): calling such a local constructs an object, nothing else."""
+    tables = set()
+    if module is not None:
+        for st in module.body:
+            if isinstance(st, ast.Assign) and len(st.targets) == 1 and isinstance(st.targets[0], ast.Name) and isinstance(st.value, ast.Dict):
+                def cls_like(v):
+                    if isinstance(v, ast.Tuple):
+                        return all(cls_like(e) for e in v.elts)
+                    return (isinstance(v, ast.Attribute) and v.attr[:1].isupper()) or (isinstance(v, ast.Name) and v.id[:1].isupper())
+                if st.value.values and all(cls_like(v) for v in st.value.values):
+                    tables.add(st.targets[0].id)
+    defs = {}
+    for x in _own_nodes(fn):
+        tgt = val = None
+        if isinstance(x, ast.NamedExpr):
+            tgt, val = x.target, x.value
+        elif isinstance(x, ast.Assign) and len(x.targets) == 1 and isinstance(x.targets[0], ast.Name):
+            tgt, val = x.targets[0], x.value
+        elif isinstance(x, ast.Name) and isinstance(x.ctx, ast.Store):
+            defs.setdefault(x.id, []).append(None)
+            continue
+        if tgt is not None and isinstance(tgt, ast.Name):
+            defs.setdefault(tgt.id, []).append(val)
+    out = set()
+    for nm, vals in defs.items():
+        real = [v for v in vals if v is not None]
+        # each binding statement is seen twice (once as the statement, once as the Store name)
+        if not real or len(vals) != 2 * len(real):
+            continue
+        ok = True
+        for v in real:
+            if isinstance(v, ast.Call) and isinstance(v.func, ast.Attribute) and v.func.attr == 'get' and \
+                    isinstance(v.func.value, ast.Name) and v.func.value.id in tables:
+                continue
+            if isinstance(v, ast.Subscript) and isinstance(v.value, ast.Name) and v.value.id in tables:
+                continue
+            if (isinstance(v, ast.Attribute) and v.attr[:1].isupper()) or (isinstance(v, ast.Name) and v.id[:1].isupper()):
+                continue
+            ok = False
+        if ok:
+            out.add(nm)
+    return out
